@@ -499,6 +499,47 @@ var Catalogue = []Mutation{
 		b.Deposits[i].Proof[d][m.Pr.n(32)] ^= 1 << uint(m.Pr.n(8))
 		return true
 	}},
+	{"DEP-PROOF-LEAFSIDE", "pabcd", func(m *MutCtx) bool {
+		// the sibling next to the leaf (depth 0) or the length mix-in (depth 32): the two ends of the branch
+		b := &m.B.Message.Body
+		if len(b.Deposits) == 0 {
+			return false
+		}
+		i := m.Pr.n(len(b.Deposits))
+		d := []int{0, 32, 31, 1}[m.Pr.n(4)]
+		b.Deposits[i].Proof[d][m.Pr.n(32)] ^= 1 << uint(m.Pr.n(8))
+		return true
+	}},
+	{"DEP-DATA-FIELD", "pabcd", func(m *MutCtx) bool {
+		// any field of the deposit data is covered by the leaf: pubkey / credentials / signature changed
+		b := &m.B.Message.Body
+		if len(b.Deposits) == 0 {
+			return false
+		}
+		d := &b.Deposits[m.Pr.n(len(b.Deposits))].Data
+		switch m.Pr.n(3) {
+		case 0:
+			d.Pubkey = refspec.KeyPubkey(uint64(900 + m.Pr.n(50)))
+		case 1:
+			d.WithdrawalCredentials[5+m.Pr.n(20)] ^= 1
+		default:
+			d.Signature = refspec.Sign(uint64(3+m.Pr.n(5)), m.Pr.root())
+		}
+		return true
+	}},
+	{"DEP-REPLAY-PROCESSED", "pabcd", func(m *MutCtx) bool {
+		// an already processed deposit (with its then-valid proof shape) in place of the next one
+		b := &m.B.Message.Body
+		if len(b.Deposits) == 0 || m.Pre.Eth1DepositIndex == 0 || len(m.C.Datas) == 0 {
+			return false
+		}
+		old := m.Pr.n(int(m.Pre.Eth1DepositIndex))
+		if old >= len(m.C.Datas) {
+			return false
+		}
+		b.Deposits[0].Data = m.C.Datas[old]
+		return true
+	}},
 	{"DEP-WRONG-INDEX", "pabcd", func(m *MutCtx) bool {
 		b := &m.B.Message.Body
 		if len(b.Deposits) < 2 {
@@ -759,6 +800,15 @@ var Catalogue = []Mutation{
 		p.Withdrawals[0], p.Withdrawals[1] = p.Withdrawals[1], p.Withdrawals[0]
 		return true
 	}},
+	// One conjunct of is_fully_withdrawable_validator / is_partially_withdrawable_validator (or the sweep
+	// bound) relaxed at a time: the payload carries the withdrawals a library that forgot that conjunct
+	// would expect. Applicable only when some validator in the sweep window sits in the gap.
+	{"PAY-WD-PARTIAL-LOW-EB", "cd", func(m *MutCtx) bool { return mutRelaxedWithdrawals(m, "partial-eb") }},
+	{"PAY-WD-PARTIAL-NOCRED", "cd", func(m *MutCtx) bool { return mutRelaxedWithdrawals(m, "partial-cred") }},
+	{"PAY-WD-PARTIAL-AT-MAX", "cd", func(m *MutCtx) bool { return mutRelaxedWithdrawals(m, "partial-ge") }},
+	{"PAY-WD-FULL-EARLY", "cd", func(m *MutCtx) bool { return mutRelaxedWithdrawals(m, "full-epoch") }},
+	{"PAY-WD-FULL-NOCRED", "cd", func(m *MutCtx) bool { return mutRelaxedWithdrawals(m, "full-cred") }},
+	{"PAY-WD-SWEEP-PLUS-ONE", "cd", func(m *MutCtx) bool { return mutRelaxedWithdrawals(m, "sweep+1") }},
 	{"PAY-BLOBS-OVER", "d", func(m *MutCtx) bool {
 		b := &m.B.Message.Body
 		for uint64(len(b.BlobCommitments)) <= m.sp().P.MAX_BLOBS_PER_BLOCK {
@@ -779,6 +829,63 @@ var Catalogue = []Mutation{
 		return true
 	}},
 	{"GRAFFITI-BENIGN", "pabcd", func(m *MutCtx) bool { m.B.Message.Body.Graffiti[0] ^= 0xff; m.Benign = true; return true }},
+}
+
+// relaxedWithdrawals is get_expected_withdrawals with exactly one condition relaxed (variant).
+func relaxedWithdrawals(sp *refspec.Spec, s *refspec.State, variant string) []refspec.Withdrawal {
+	epoch := sp.CurrentEpoch(s)
+	wi, vi := s.NextWithdrawalIndex, s.NextWithdrawalValidatorIndex
+	n := uint64(len(s.Validators))
+	bound := n
+	if sp.P.MAX_VALIDATORS_PER_WITHDRAWALS_SWEEP < bound {
+		bound = sp.P.MAX_VALIDATORS_PER_WITHDRAWALS_SWEEP
+		if variant == "sweep+1" {
+			bound++
+		}
+	}
+	max := sp.P.MAX_EFFECTIVE_BALANCE
+	var out []refspec.Withdrawal
+	for k := uint64(0); k < bound; k++ {
+		v := &s.Validators[vi]
+		bal := s.Balances[vi]
+		cred := v.WithdrawalCredentials[0] == refspec.ETH1_ADDRESS_WITHDRAWAL_PREFIX
+		var addr [20]byte
+		copy(addr[:], v.WithdrawalCredentials[12:])
+		full := (cred || variant == "full-cred") && (v.WithdrawableEpoch <= epoch || (variant == "full-epoch" && v.WithdrawableEpoch <= epoch+1)) && bal > 0
+		partial := (cred || variant == "partial-cred") && (v.EffectiveBalance == max || variant == "partial-eb") && (bal > max || (variant == "partial-ge" && bal == max))
+		if full {
+			out = append(out, refspec.Withdrawal{Index: wi, ValidatorIndex: vi, Address: addr, Amount: bal})
+			wi++
+		} else if partial {
+			out = append(out, refspec.Withdrawal{Index: wi, ValidatorIndex: vi, Address: addr, Amount: bal - max})
+			wi++
+		}
+		if uint64(len(out)) == sp.P.MAX_WITHDRAWALS_PER_PAYLOAD {
+			break
+		}
+		vi = (vi + 1) % n
+	}
+	return out
+}
+
+func mutRelaxedWithdrawals(m *MutCtx, variant string) bool {
+	if !payloadPresent(m) || len(m.Pre.Validators) == 0 {
+		return false
+	}
+	sp := m.sp()
+	want := sp.ExpectedWithdrawals(m.Pre)
+	got := relaxedWithdrawals(sp, m.Pre, variant)
+	if len(want) == len(got) {
+		same := true
+		for i := range want {
+			same = same && want[i] == got[i]
+		}
+		if same {
+			return false
+		}
+	}
+	m.B.Message.Body.ExecutionPayload.Withdrawals = got
+	return true
 }
 
 func payloadPresent(m *MutCtx) bool {
